@@ -399,6 +399,12 @@ func readHeader(in *io.Reader) (manifest []byte, mac []byte, err error) {
 		n += nn
 	}
 
+	// If the read that completed the header also returned an error (other than the stream having ended), do not lose it:
+	// the stream is not required to report it again on the next read
+	if newlines == 3 && err != nil && !errors.Is(err, io.EOF) {
+		return nil, nil, err
+	}
+
 	// Ensure we have a manifest and MAC
 	if newlines < 1 {
 		return nil, nil, errors.New("scheme name not found")
